@@ -66,9 +66,26 @@ def run(ctx):
         pairs = list(zip(tg.elts, val.elts)) if isinstance(tg, ast.Tuple) and isinstance(val, ast.Tuple) and len(tg.elts) == len(val.elts) else [(tg, val)]
         for t_, v_ in pairs:
             if isinstance(t_, ast.Name) and t_.id in ("start", "stop") and A.norm(v_) not in ("start", "stop"):
-                refined.setdefault(t_.id, []).append(A.norm(q.expand_at(gt, gt.nodes_of(st_)[0], v_, keep=("peak_position", "new_scan_range", "low_limit", "high_limit"))))
-    ok = refined.get("start") == ["np.clip(peak_position - new_scan_range / 2, low_limit, high_limit)"] and \
-        refined.get("stop") == ["np.clip(peak_position + new_scan_range / 2, low_limit, high_limit)"]
+                refined.setdefault(t_.id, []).append(q.expand_at(gt, gt.nodes_of(st_)[0], v_, keep=("peak_position", "low_limit", "high_limit", "start", "stop", "step_factor")))
+    # each is np.clip(<centre -/+ half the new range>, low_limit, high_limit); the first argument is compared with the documented
+    # formula peak -/+ (stop - start) / step_factor / 2 by exact identity testing (no matter how the half range was named / grouped)
+    from .. import exprs
+
+    def is_clip_of(e, sign):
+        if not (isinstance(e, ast.Call) and A.call_name(e) in ("np.clip", "numpy.clip") and len(e.args) == 3 and not e.keywords
+                and A.norm(e.args[1]) == "low_limit" and A.norm(e.args[2]) == "high_limit"):
+            return False
+        want = ast.parse(f"peak_position {sign} (stop - start) / step_factor / 2", mode="eval").body
+        try:
+            return all(exprs.feval(e.args[0], env) == exprs.feval(want, env)
+                       for env in exprs.random_points(["peak_position", "start", "stop", "step_factor"], 6, signed=("peak_position", "start", "stop")))
+        except Exception:
+            return False
+    # with `snake` the two are swapped after being computed; both orders are the documented behaviour
+    cands = {k: v for k, v in refined.items()}
+    ok = bool(cands.get("start")) and bool(cands.get("stop")) and \
+        all(is_clip_of(e, "-") or is_clip_of(e, "+") for e in cands["start"] + cands["stop"]) and \
+        any(is_clip_of(e, "-") for e in cands["start"]) and any(is_clip_of(e, "+") for e in cands["stop"])
     ctx.ob("C29.D1-limits", cname(f, None, "the refined range is clipped to the limits"), ok, "" if ok else "refined range can leave [start, stop]", where=where(f, f.node))
     a = repo.func(PL, "adaptive_scan.adaptive_core")
     t = A.norm(a.node)
